@@ -24,7 +24,7 @@ def gen_events(rec, r, n, wd, rep):
         except OverflowError:
             skipped += 1            # the writer refuses an over-long tag list: outside "accepted by the writer"
             continue
-        auth = L.proj_file(f)
+        auth = rec.last_written
         L.rec_read(rec, text, key, True, disk, wd, auth=auth)
         L.rec_read(rec, text, key, False, not disk, wd, auth=auth)
         if j % 4 == 1:
@@ -39,7 +39,7 @@ def gen_events(rec, r, n, wd, rep):
                     del f.components[r.randrange(len(f.components))]
                 f.comments["edited"] = "yes"
                 text = L.rec_write(rec, f, key, False, wd)
-                L.rec_read(rec, text, key, True, False, wd, auth=L.proj_file(f))
+                L.rec_read(rec, text, key, True, False, wd, auth=rec.last_written)
             except OverflowError:
                 skipped += 1
     return skipped
@@ -92,7 +92,7 @@ def run(tier):
             real = L.Bf3File({}, [L.mk_comp(*C.gamma_comp(c)) for c in comps])
             key = L.gen_key(r)
             text = L.rec_write(rec, real, key, False, wd)
-            ev = L.rec_read(rec, text, key, True, False, wd, auth=L.proj_file(real))
+            ev = L.rec_read(rec, text, key, True, False, wd, auth=rec.last_written)
             want = []
             for c in expect:
                 d, b, a, e = C.gamma_comp(c)
@@ -111,7 +111,7 @@ def run(tier):
         for f in edge_files(r):
             key = L.gen_key(r)
             text = L.rec_write(rec, f, key, False, wd)
-            L.rec_read(rec, text, key, True, False, wd, auth=L.proj_file(f))
+            L.rec_read(rec, text, key, True, False, wd, auth=rec.last_written)
         skipped = gen_events(rec, r, 120 if tier == "quick" else 3000, wd, rep)
         # binding self-test: one corrupted recorded field must be rejected
         can = dict(rec.events[-1])
